@@ -47,6 +47,16 @@ fn range_in_doc(text: &str, r: &Range) -> Result<(), String> {
 
 fn main() {
     let a: Vec<String> = std::env::args().collect();
+    if a.len() >= 2 && a[1] == "chartable" {
+        // the real std character predicates for ASCII and the given extra code points (the symbolic model reads them from here)
+        let mut cps: Vec<u32> = (0..128).collect();
+        for x in &a[2..] { cps.push(u32::from_str_radix(x, 16).unwrap()) }
+        let rows: Vec<String> = cps.iter().filter_map(|&cp| char::from_u32(cp).map(|c| format!(
+            "\"{}\":{{\"alnum\":{},\"alpha\":{},\"ws\":{},\"upper\":{},\"lower\":{},\"numeric\":{},\"ascii_digit\":{},\"ascii_alnum\":{},\"ascii_alpha\":{},\"len_utf8\":{},\"len_utf16\":{}}}",
+            cp, c.is_alphanumeric(), c.is_alphabetic(), c.is_whitespace(), c.is_uppercase(), c.is_lowercase(), c.is_numeric(), c.is_ascii_digit(), c.is_ascii_alphanumeric(), c.is_ascii_alphabetic(), c.len_utf8(), c.len_utf16()))).collect();
+        println!("{{{}}}", rows.join(","));
+        return;
+    }
     if a.len() < 5 { eprintln!("usage: replay-lsp <request> <line> <character> <text>"); std::process::exit(2) }
     let req = a[1].as_str();
     let pos = Position { line: a[2].parse().unwrap(), character: a[3].parse().unwrap() };
@@ -54,7 +64,7 @@ fn main() {
     let uri = Url::parse("file:///doc.vpl").unwrap();
     std::panic::set_hook(Box::new(|_| {}));
     let mut bad: Vec<String> = Vec::new();
-    let mut run = |name: &str, f: &dyn Fn() -> Vec<Range>| {
+    { let mut run = |name: &str, f: &dyn Fn() -> Vec<Range>| {
         if req != "all" && req != name { return }
         match catch_unwind(AssertUnwindSafe(f)) {
             Err(e) => {
@@ -71,6 +81,35 @@ fn main() {
     run("references", &|| varpulis_lsp::navigation::get_references(&text, pos, &uri).unwrap_or_default().into_iter().map(|l| l.range).collect());
     run("tokens", &|| { let _ = varpulis_lsp::semantic::get_semantic_tokens(&text); vec![] });
     run("symbols", &|| varpulis_lsp::semantic::get_document_symbols(&text).into_iter().map(|s| s.location.range).collect());
+    }
+    // private helpers, reachable through the cfg(varpulis_verif) hooks: `<fn name> <line> <col|pos> <text>`
+    #[cfg(varpulis_verif)]
+    {
+        let n1 = a[2].parse::<usize>().unwrap(); let n2 = a[3].parse::<usize>().unwrap();
+        let doc_has = |line: usize, col: usize| -> Result<(), String> {
+            let ls: Vec<&str> = text.split('\n').collect();
+            if line >= ls.len() { return Err(format!("line {line} beyond the document")) }
+            if col > ls[line].chars().count() { return Err(format!("column {col} beyond line {line} of {} characters", ls[line].chars().count())) }
+            Ok(())
+        };
+        let mut runf = |name: &str, f: &dyn Fn() -> Result<(), String>| {
+            if req != name { return }
+            match catch_unwind(AssertUnwindSafe(f)) {
+                Err(e) => {
+                    let msg = e.downcast_ref::<String>().cloned().or_else(|| e.downcast_ref::<&str>().map(|s| s.to_string())).unwrap_or_default();
+                    bad.push(format!("{name} panicked: {msg}"))
+                }
+                Ok(Err(why)) => bad.push(format!("{name}: {why}")),
+                Ok(Ok(())) => {}
+            }
+        };
+        runf("position_to_line_col", &|| { let (l, c) = varpulis_lsp::diagnostics::verif_hooks::position_to_line_col(&text, n2); doc_has(l, c) });
+        runf("byte_offset_to_position", &|| { let (l, c) = varpulis_lsp::navigation::verif_hooks::byte_offset_to_position(&text, n2); doc_has(l, c) });
+        runf("get_error_end_column", &|| { let _ = varpulis_lsp::diagnostics::verif_hooks::get_error_end_column(&text, n1, n2); Ok(()) });
+        runf("get_completion_context", &|| { varpulis_lsp::completion::verif_hooks::run_completion_context(&text, pos); Ok(()) });
+        runf("get_word_at_position", &|| { let _ = varpulis_lsp::hover::verif_hooks::get_word_at_position(&text, pos); Ok(()) });
+        runf("word_at_position", &|| { let _ = varpulis_lsp::navigation::verif_hooks::word_at_position(&text, pos); Ok(()) });
+    }
     if bad.is_empty() { println!("OK {req} at {}:{} on {:?}", pos.line, pos.character, text) }
     else { println!("REPRODUCED on {:?} at {}:{}: {}", text, pos.line, pos.character, bad.join("; ")) }
 }
